@@ -40,17 +40,12 @@ theorem mem_beforeEnd_of_cleanTail {ss : List Slot} (hct : CleanTail ss) {x : Sl
   · exact h
   · exact absurd (hct x h) h0
 
-/-- **Under the invariant a live short entry of a directory is the first hit for its name**: the lookup of its
+/-- **A live short entry of a directory with a clean tail and distinct names is the first hit for its name**: the lookup of its
 name in that directory — the first slot before the end marker that is no long-name fragment and carries the name —
 finds this slot. -/
-theorem firstHit_of_inv {t : Mgr} {gh : Ghost} (hI : VolInv t gh) {h : Nat} (hh : h ∈ dirIds gh.dirs) {x : Slot}
-    (hx : x ∈ dirSlots gh.vol t.dev.disk gh.G h) (h0 : first x ≠ 0) (h5 : first x ≠ 0xE5) (hfr : isFrag x = false) :
-    Reopen.FirstHit (dirSlots gh.vol t.dev.disk gh.G h) (sName x) x := by
-  have hT := hI.med.tree
-  have hct := hT.cleanTail h hh
-  have hnd := hT.names h hh
-  clear hT
-  generalize dirSlots gh.vol t.dev.disk gh.G h = ss at hx hct hnd ⊢
+theorem firstHit_of_clean {ss : List Slot} (hct : CleanTail ss) (hnd : ((entries ss).map sName).Nodup) {x : Slot}
+    (hx : x ∈ ss) (h0 : first x ≠ 0) (h5 : first x ≠ 0xE5) (hfr : isFrag x = false) :
+    Reopen.FirstHit ss (sName x) x := by
   have hbe := mem_beforeEnd_of_cleanTail hct hx h0
   have hent : x ∈ entries ss := by
     rw [entries_eq, List.mem_filter]
@@ -70,6 +65,12 @@ theorem firstHit_of_inv {t : Mgr} {gh : Ghost} (hI : VolInv t gh) {h : Nat} (hh 
   · have hfa : first a ≠ 0xE5 := by rw [first_of_sName hn]; exact h5
     simp [hn, hfa]
   · simp [hn]
+
+/-- The same from the invariant of a manager state. -/
+theorem firstHit_of_inv {t : Mgr} {gh : Ghost} (hI : VolInv t gh) {h : Nat} (hh : h ∈ dirIds gh.dirs) {x : Slot}
+    (hx : x ∈ dirSlots gh.vol t.dev.disk gh.G h) (h0 : first x ≠ 0) (h5 : first x ≠ 0xE5) (hfr : isFrag x = false) :
+    Reopen.FirstHit (dirSlots gh.vol t.dev.disk gh.G h) (sName x) x :=
+  firstHit_of_clean (hI.med.tree.cleanTail h hh) (hI.med.tree.names h hh) hx h0 h5 hfr
 
 /-! ### Slots of the FAT16 fixed root, by position -/
 
